@@ -339,7 +339,8 @@ impl Connection {
     /// Computes the maximum size of datagrams that may be passed to
     /// [`send_datagram`](Self::send_datagram).
     ///
-    /// Returns `None` if datagrams are unsupported by the peer or disabled locally.
+    /// Returns `None` if datagrams are unsupported by the peer or disabled locally, or if the
+    /// limit enforced by the peer is too small to carry any payload at all.
     ///
     /// This may change over the lifetime of a connection according to variation in the path MTU
     /// estimate. The peer can also enforce an arbitrarily small fixed limit, but if the peer's
@@ -350,7 +351,9 @@ impl Connection {
     pub fn max_datagram_size(&self) -> Option<usize> {
         self.quic_connection
             .max_datagram_size()
-            .map(|quic_max_size| quic_max_size - Datagram::header_size(self.session_id))
+            .and_then(|quic_max_size| {
+                quic_max_size.checked_sub(Datagram::header_size(self.session_id))
+            })
     }
 
     /// Current best estimate of this connection's latency (round-trip-time).
